@@ -72,7 +72,7 @@ def permute_sets(rng, spec):
 def gen_case(seed, idx, tier="quick"):
     rng = engine.rng_for(seed, PROP, idx)
     cfg = TIERS[tier]
-    quals = dict(keys=QUAL_KEYS, vals=QUAL_VALS, max_keys=3, p_none=0.25)
+    quals = dict(keys=QUAL_KEYS, vals=QUAL_VALS, max_keys=3, p_none=0.25, typed_p=0.07)
     spec = specs.gen_collection(rng, L=rng.choice([40, 90, 200, 300]), n_genes=rng.randint(0, 3), n_fcs=rng.choice([0, 1, 1, 2]),
                                 quals=quals, gene_kw=dict(max_tx=3, same_strand=rng.random() < 0.7), with_n=rng.random() < 0.1)
     if not spec["genes"] and not spec["feature_collections"]:
